@@ -4,6 +4,13 @@ from probdiffeq.backend.typing import Sequence
 __all__ = ["dt0", "dt0_adaptive"]
 
 
+def _vector_norm_safe(arr, /):
+    """Evaluate the Euclidean norm without over- or underflow for badly scaled inputs."""
+    scale = np.amax(np.abs(arr))
+    scale_safe = np.where(scale > 0.0, scale, 1.0)
+    return scale * linalg.vector_norm(arr / scale_safe)
+
+
 def dt0(vf, initial_values: Sequence, /, scale=0.01, nugget=1e-5, **vf_kwargs):
     """Propose an initial time-step."""
     if vf.is_jet_lifted:
@@ -15,10 +22,12 @@ def dt0(vf, initial_values: Sequence, /, scale=0.01, nugget=1e-5, **vf_kwargs):
     u0, _ = tree.ravel_pytree(u0)
     f0, _ = tree.ravel_pytree(f0)
 
-    norm_y0 = linalg.vector_norm(u0)
-    norm_dy0 = linalg.vector_norm(f0) + nugget
+    norm_y0 = _vector_norm_safe(u0)
+    norm_dy0 = _vector_norm_safe(f0) + nugget
 
-    return scale * norm_y0 / norm_dy0
+    # Zero initial values carry no scale information; fall back to a small step
+    # (same fallback as in dt0_adaptive) instead of proposing a zero step.
+    return np.where(norm_y0 > 0.0, scale * norm_y0 / norm_dy0, 1e-6)
 
 
 def dt0_adaptive(
@@ -47,14 +56,14 @@ def dt0_adaptive(
     f0, _ = tree.ravel_pytree(f0)
 
     scale = atol + np.abs(y0) * rtol
-    d0, d1 = linalg.vector_norm(y0), linalg.vector_norm(f0)
+    d0, d1 = _vector_norm_safe(y0), _vector_norm_safe(f0)
 
     dt0 = np.where((d0 < 1e-5) | (d1 < 1e-5), 1e-6, 0.01 * d0 / d1)
 
     y1 = y0 + dt0 * f0
     [f1] = vf.vector_field(jet_coords=(unravel(y1),), t=t0 + dt0)
     f1, _ = tree.ravel_pytree(f1)
-    d2 = linalg.vector_norm((f1 - f0) / scale) / dt0
+    d2 = _vector_norm_safe((f1 - f0) / scale) / dt0
 
     dt1 = np.where(
         (d1 <= 1e-15) & (d2 <= 1e-15),
